@@ -384,7 +384,10 @@ where
         let ms = match self.radio.tx(tx_config, self.radio_buffer.as_ref_for_read()).await {
             Ok(ms) => ms,
             Err(e) => {
-                let _ = self.mac.rx2_complete();
+                // An exhausted counter space is reported even when the radio failed.
+                if let mac::Response::SessionExpired = self.mac.rx2_complete() {
+                    return Ok(SendResponse::SessionExpired);
+                }
                 return Err(Error::Radio(e));
             }
         };
@@ -394,7 +397,9 @@ where
         match self.rx_downlink(&Frame::Data, ms, &rx_windows).await {
             Ok(response) => Ok(response.into()),
             Err(e) => {
-                let _ = self.mac.rx2_complete();
+                if let mac::Response::SessionExpired = self.mac.rx2_complete() {
+                    return Ok(SendResponse::SessionExpired);
+                }
                 Err(e)
             }
         }
